@@ -54,6 +54,11 @@ func main() {
 		os.Exit(rules.DebugEntries())
 	case "manifest":
 		os.Exit(manifest())
+	case "vocab":
+		os.Exit(rules.Vocab())
+	case "ssa":
+		// debug: gsa ssa <pkg> <func> — print the normalised SSA of one function
+		os.Exit(rules.DumpSSA(os.Args[2], os.Args[3]))
 	case "check":
 		if len(os.Args) < 3 {
 			usage()
